@@ -2924,10 +2924,9 @@ func fileFromReader(name string, reader io.Reader) (*File, error) {
 		Header: make(map[string][]string),
 		Writer: func(writer io.Writer) (int64, error) {
 			readBytes, copyErr := io.Copy(writer, byteReader)
-			if copyErr != nil {
-				return readBytes, copyErr
+			if _, seekErr := byteReader.Seek(0, io.SeekStart); copyErr == nil {
+				copyErr = seekErr
 			}
-			_, copyErr = byteReader.Seek(0, io.SeekStart)
 			return readBytes, copyErr
 		},
 	}, nil
@@ -2954,10 +2953,9 @@ func fileFromReadSeeker(name string, reader io.ReadSeeker) *File {
 		Header: make(map[string][]string),
 		Writer: func(writer io.Writer) (int64, error) {
 			readBytes, err := io.Copy(writer, reader)
-			if err != nil {
-				return readBytes, err
+			if _, seekErr := reader.Seek(0, io.SeekStart); err == nil {
+				err = seekErr
 			}
-			_, err = reader.Seek(0, io.SeekStart)
 			return readBytes, err
 		},
 	}
